@@ -192,3 +192,92 @@ func GatherOther(n, m int) int {
 	}
 	return sum
 }
+
+// want:GO.CAPTURE the worker reads the shared loop variable.
+func CaptureLoopVar(data []float64, n int) []float64 {
+	out := make([]float64, n)
+	done := make(chan bool, n)
+	for i := 0; i < n; i++ {
+		go func() {
+			for j := i; j < len(data); j += n {
+				out[j%n] += data[j]
+			}
+			done <- true
+		}()
+	}
+	for i := 0; i < n; i++ {
+		<-done
+	}
+	return out
+}
+
+// clean:GO.CAPTURE
+// clean:GO.STRIDE
+func PassLoopVar(data []float64, n int) []float64 {
+	out := make([]float64, n)
+	done := make(chan bool, n)
+	for i := 0; i < n; i++ {
+		go func(idx int) {
+			for j := idx; j < len(data); j += n {
+				out[idx] += data[j]
+			}
+			done <- true
+		}(i)
+	}
+	for i := 0; i < n; i++ {
+		<-done
+	}
+	return out
+}
+
+// want:GO.STRIDE started n times, striding by m.
+func StrideOther(data []float64, n, m int) []float64 {
+	out := make([]float64, n)
+	done := make(chan bool, n)
+	for i := 0; i < n; i++ {
+		go func(idx int) {
+			for j := idx; j < len(data); j += m {
+				out[idx] += data[j]
+			}
+			done <- true
+		}(i)
+	}
+	for i := 0; i < n; i++ {
+		<-done
+	}
+	return out
+}
+
+const badMargin = 1 / 1000
+
+// want:CONSTDIV the margin is an integer quotient.
+func MarginBad(delta float64) float64 {
+	return delta * (1 / 1000)
+}
+
+// clean:CONSTDIV
+func HalfCount(n int) int {
+	return n * (4 / 2)
+}
+
+// want:PARTITION the remainder pixels are never visited.
+func ChunksFloor(total, size int, f func(int)) {
+	chunks := total / size
+	for k := 0; k < chunks; k++ {
+		start := k * size
+		for i := start; i < start+size && i < total; i++ {
+			f(i)
+		}
+	}
+}
+
+// clean:PARTITION
+func ChunksCeil(total, size int, f func(int)) {
+	chunks := (total + size - 1) / size
+	for k := 0; k < chunks; k++ {
+		start := k * size
+		for i := start; i < start+size && i < total; i++ {
+			f(i)
+		}
+	}
+}
